@@ -30,6 +30,8 @@ pub struct MPartition {
     pub consumer_offsets: BTreeMap<u32, u64>,
     pub group_offsets: BTreeMap<u32, u64>,
     pub dedup_ids: BTreeSet<u128>,
+    /// ids stored before a purge: the property does not say whether they are still remembered
+    pub purged_ids: BTreeSet<u128>,
     pub created_at: Option<u64>,
     /// set when an injected fault made the content of this partition uncertain
     pub tainted: bool,
